@@ -11,7 +11,10 @@ This file is the executable model of that shape, generic in the table of operato
 
 * `parse T fuel k ts` — rung `k` (0 = loosest chain, `T.n` = `unary`/`primary`) applied to the tokens `ts`;
 * `loop T fuel k left ts` — the `for` loop of rung `k` with the running result `left`;
-* `pp T k e` — the printer with **minimal parentheses** the program generator uses (`vlib/gen.py: pp_expr(e, minimal,
+* `parseIf T fuel ts`, `loopIf` — `ifExpression`, the rung above the chains: `a, falls c, ansonsten b`, where the condition and
+  the alternative are whole `ifExpression`s again (the loop rebinds, but the alternative has taken every further `, falls`
+  already: chains nest to the right); parentheses restart here;
+* `pp T k e` / `ppI T e` — the printer with **minimal parentheses** (operand of chain rung `k` / where a whole expression stands) the program generator uses (`vlib/gen.py: pp_expr(e, minimal,
   need)`): an operand is parenthesised exactly when its own rung is looser than the rung the position asks for; the left
   operand of a chain asks for the rung itself, the right operand for the next tighter one.
 
@@ -24,13 +27,15 @@ Recursion is structural on the fuel (as everywhere in the models); `parse_pp` pr
 
 namespace DDP.LadderParse
 
-/-- tokens of the fragment: operands, binary operator words, prefix operator words, parentheses -/
+/-- tokens of the fragment: operands, binary operator words, prefix operator words, parentheses, `, falls`, `, ansonsten` -/
 inductive Tok
   | atom (a : Nat)
   | bop (o : Nat)
   | uop (u : Nat)
   | lp
   | rp
+  | falls      -- `, falls`
+  | sonst      -- `, ansonsten`
   deriving DecidableEq, Repr
 
 /-- syntax trees (a `Grouping` node is not kept: parentheses only steer the parser) -/
@@ -38,6 +43,7 @@ inductive E
   | atom (a : Nat)
   | un (u : Nat) (e : E)
   | bin (o : Nat) (l r : E)
+  | ite (a c b : E)          -- `a, falls c, ansonsten b`
   deriving DecidableEq, Repr
 
 /-- the operator table: `n` chain rungs (0 loosest), `lv o` the rung whose loop tests for operator `o` -/
@@ -51,20 +57,24 @@ def closeParen (p : E × List Tok) : Option (E × List Tok) :=
   | .rp :: rest' => some (p.1, rest')
   | _ => none
 
+/-- after the condition of a conditional expression: `, ansonsten` must follow -/
+def expectSonst (p : E × List Tok) : Option (E × List Tok) :=
+  match p.2 with
+  | .sonst :: rest' => some (p.1, rest')
+  | _ => none
+
 mutual
-/-- rung `k` of the ladder -/
+/-- rung `k` of the ladder: a chain rung (first operand from the next tighter rung, then the loop), or `unary` / `primary` -/
 def parse (T : Tbl) : Nat → Nat → List Tok → Option (E × List Tok)
   | 0, _, _ => none
   | f+1, k, ts =>
     if k < T.n then
-      -- a chain rung: first operand from the next tighter rung, then the loop
       (parse T f (k+1) ts).bind (fun p => loop T f k p.1 p.2)
     else
       match ts with
       | .atom a :: rest => some (.atom a, rest)
-      | .uop u :: rest => (parse T f k rest).bind (fun p => some (.un u p.1, p.2))    -- `unary` calls `unary`
-      | .lp :: rest =>                                                                 -- grouping: `expression` again
-        (parse T f 0 rest).bind closeParen
+      | .uop u :: rest => (parse T f k rest).bind (fun p => some (.un u p.1, p.2))
+      | .lp :: rest => (parseIf T f rest).bind closeParen
       | _ => none
 /-- the loop of rung `k`: as long as one of the rung's operators follows, the right operand comes from the next tighter
 rung and the running result is rebound (left associative) -/
@@ -77,27 +87,53 @@ def loop (T : Tbl) : Nat → Nat → E → List Tok → Option (E × List Tok)
         (parse T f (k+1) rest).bind (fun p => loop T f k (.bin o left p.1) p.2)
       else some (left, ts)
     | _ => some (left, ts)
+/-- `ifExpression`: the value from the loosest chain rung, then the loop over `, falls` -/
+def parseIf (T : Tbl) : Nat → List Tok → Option (E × List Tok)
+  | 0, _ => none
+  | f+1, ts => (parse T f 0 ts).bind (fun p => loopIf T f p.1 p.2)
+/-- the loop of `ifExpression`: condition and alternative are whole `ifExpression`s again -/
+def loopIf (T : Tbl) : Nat → E → List Tok → Option (E × List Tok)
+  | 0, _, _ => none
+  | f+1, left, ts =>
+    match ts with
+    | .falls :: rest =>
+      ((parseIf T f rest).bind expectSonst).bind (fun pc =>
+        (parseIf T f pc.2).bind (fun pb => loopIf T f (.ite left pc.1 pb.1) pb.2))
+    | _ => some (left, ts)
 end
 
 /-- parenthesise -/
 def wrap (b : Bool) (ts : List Tok) : List Tok := if b then .lp :: (ts ++ [.rp]) else ts
 
-/-- print `e` as an operand of a position that asks for rung `k` — minimal parentheses -/
+mutual
+/-- print `e` as an operand of a position that asks for chain rung `k` — minimal parentheses; a conditional expression is
+looser than every chain rung -/
 def pp (T : Tbl) (k : Nat) : E → List Tok
   | .atom a => [.atom a]
   | .un u e => .uop u :: pp T T.n e
   | .bin o l r => wrap (decide (T.lv o < k)) (pp T (T.lv o) l ++ .bop o :: pp T (T.lv o + 1) r)
+  | .ite a c b => .lp :: ((pp T 0 a ++ .falls :: (ppI T c ++ .sonst :: ppI T b)) ++ [.rp])
+/-- print `e` where a whole `ifExpression` is expected (top level, inside parentheses, condition and alternative of a
+conditional expression) -/
+def ppI (T : Tbl) : E → List Tok
+  | .atom a => [.atom a]
+  | .un u e => .uop u :: pp T T.n e
+  | .bin o l r => pp T (T.lv o) l ++ .bop o :: pp T (T.lv o + 1) r
+  | .ite a c b => pp T 0 a ++ .falls :: (ppI T c ++ .sonst :: ppI T b)
+end
 
 /-- every binary operator of the tree belongs to one of the chain rungs -/
 def wf (T : Tbl) : E → Prop
   | .atom _ => True
   | .un _ e => wf T e
   | .bin o l r => T.lv o < T.n ∧ wf T l ∧ wf T r
+  | .ite a c b => wf T a ∧ wf T c ∧ wf T b
 
 def wfDec (T : Tbl) : (e : E) → Decidable (wf T e)
   | .atom _ => isTrue trivial
   | .un _ e => wfDec T e
-  | .bin o l r => @instDecidableAnd _ _ (Nat.decLt _ _) (@instDecidableAnd _ _ (wfDec T l) (wfDec T r))
+  | .bin _ l r => @instDecidableAnd _ _ (Nat.decLt _ _) (@instDecidableAnd _ _ (wfDec T l) (wfDec T r))
+  | .ite a c b => @instDecidableAnd _ _ (wfDec T a) (@instDecidableAnd _ _ (wfDec T c) (wfDec T b))
 
 instance (T : Tbl) (e : E) : Decidable (wf T e) := wfDec T e
 
@@ -105,16 +141,14 @@ instance (T : Tbl) (e : E) : Decidable (wf T e) := wfDec T e
 def okRest (T : Tbl) (k : Nat) (rest : List Tok) : Prop :=
   ∀ o r, rest = .bop o :: r → T.lv o < k
 
-/-- number of nodes (the fuel `parseAll` hands out is derived from it) -/
-def size : E → Nat
-  | .atom _ => 1
-  | .un _ e => size e + 1
-  | .bin _ l r => size l + size r + 1
+/-- what follows a whole `ifExpression`: no operator word and no `, falls` -/
+def okRestI (rest : List Tok) : Prop :=
+  (∀ o r, rest ≠ .bop o :: r) ∧ (∀ r, rest ≠ .falls :: r)
 
-/-- the whole-input entry: rung 0, nothing may be left over. The fuel is the bound of `fuel_suffices` (every call either
-moves to a tighter rung or has consumed a token), so this function *is* the ladder, not an approximation of it. -/
+/-- the whole-input entry: `ifExpression`, nothing may be left over. The fuel is the bound of `fuel_suffices` (every call
+either moves to a tighter rung or has consumed a token), so this function *is* the ladder, not an approximation of it. -/
 def parseAll (T : Tbl) (ts : List Tok) : Option E :=
-  match parse T (ts.length * (T.n + 3) + (T.n + 1)) 0 ts with
+  match parseIf T (ts.length * (T.n + 4) + (T.n + 2)) ts with
   | some (e, []) => some e
   | _ => none
 
